@@ -160,7 +160,7 @@ Section Loop.
         * apply Hnext; auto. chain Hpre2. unfold head. chain Ha. unfold head. fin.
         * cbn [sim]. split; [split; auto|].
           destruct Ha as [pcr [Ix [wv [H1' [H2' H3']]]]]. exists pcr, Ix, vs', wv. repeat split; auto.
-          chain Hpre2. unfold head. hnf. exact H1'.
+          chain Hpre2. unfold head. eapply star_from_eq; [ | exact H1' ]. state_eq.
       + hstar Hpre2. unfold head. hchain IH2.
       + hstar Hpre2. unfold head. hchain IH2.
   Qed.
